@@ -16,6 +16,7 @@ CONSTANTS
   FirstSighting = TRUE
   SeedAtomic = TRUE
   L = 5
+  Lmin = 5
   Extras = FALSE
 INVARIANT Emit
 CHECK_DEADLOCK FALSE
